@@ -608,5 +608,198 @@ theorem normEntry_addend_fits (c : Cls) (e : Entry)
   | c32 => obtain ⟨h1, h2⟩ := h rfl; exact sext32_trunc_of_fits _ h1 h2
   | c64 => rfl
 
+/-! ### rewriting one entry -/
+
+/-- `generic_set_entry_rel/rela<T>` : the three member writes are one write of the gABI record at
+    `index * entry_size`; nothing else in the buffer changes -/
+theorem setGeneric_spec {c : Cls} {k : RelKind} {ops : RecOps} (ok : OpsOk c k ops) (enc : Enc) (b : SecBuf)
+    (hI : b.Inv) (hc : b.cls = c) (idx : BitVec 64) (hE : ops.size ≤ b.entSize.toNat)
+    (hidx : idx.toNat < b.size.toNat / b.entSize.toNat) (e : Entry) :
+    ∃ b', setGeneric ops enc b idx e = .ok b' ∧ b'.Resident ∧ b'.cls = b.cls ∧ b'.stype = b.stype ∧
+      b'.entSize = b.entSize ∧ b'.size = b.size ∧
+      b'.content = wr b.content (idx.toNat * b.entSize.toNat) (encodeEntry ⟨c, enc⟩ k e.toSpec) := by
+  obtain ⟨hr, hcont⟩ := getData_inv hI
+  obtain ⟨g1, g2, g3, g4⟩ := getData_static b
+  obtain ⟨hib, hEpos⟩ := index_bound hidx
+  have hpos := ok.size_pos
+  have hsz : b.getData.size.toNat ≠ 0 := by rw [g4]; omega
+  obtain ⟨a, hd, hs1, hs2, hca⟩ := resident_buf hr hsz
+  rw [g4] at hs1 hca; rw [hcont] at hca
+  have hlt := b.size.isLt
+  simp only [Nat.reducePow] at hlt
+  have hoff : (ops.setOff idx b.getData.entSize).toNat = idx.toNat * b.entSize.toNat := by
+    rw [ok.setOff, g3, BitVec.toNat_mul]
+    simp only [Nat.reducePow]
+    apply Nat.mod_eq_of_lt; omega
+  have hSz : ops.size = (if hasAddend k then 3 else 2) * wordBytes c := by rw [ok.size, entSize_eq]
+  generalize hoffv : idx.toNat * b.entSize.toNat = off at *
+  generalize hW : wordBytes c = W at *
+  -- the three converted members
+  generalize hfi : wrField enc W (if ops.setIs32 (classByte b.getData.cls) then ops.setInfo32 e.symbol e.type
+      else ops.setInfo64 e.symbol e.type) = fi
+  generalize hfo : wrField enc W (ops.setOffset e.offset) = fo
+  generalize hfa : wrField enc W (ops.setAddend e.addend) = fa
+  have li : fi.length = W := by rw [← hfi]; simp
+  have lo : fo.length = W := by rw [← hfo]; simp
+  have la : fa.length = W := by rw [← hfa]; simp
+  -- the record they form
+  have hrec : fo ++ fi ++ (if hasAddend k then fa else []) = encodeEntry ⟨c, enc⟩ k e.toSpec := by
+    unfold encodeEntry encodeRaw
+    simp only [hW]
+    rw [← hfo, ← hfi, ← hfa, g1, hc, ← hW]
+    simp only [wrField_enc]
+    rw [encodeInt_congr enc _ _ _ (ok.setOffset e.offset), encodeInt_congr enc _ _ _ (ok.setInfo e.symbol e.type)]
+    cases k with
+    | rel => simp [hasAddend, Entry.toSpec]
+    | rela =>
+      have hya : ops.hasAddend = true := by rw [ok.hasAddend]; rfl
+      simp only [hasAddend, if_true]
+      rw [encodeInt_congr enc _ _ _ (ok.setAddend e.addend hya)]
+      simp [Entry.toSpec]
+  have hreclen : (encodeEntry ⟨c, enc⟩ k e.toSpec).length = ops.size := by rw [encodeEntry_length, ok.size]
+  -- first two writes
+  have w1 := @wrRange_some_ok "set_entry/r_info" a (off + W) fi (by rw [li]; rw [hSz] at hE hpos; split at hE <;> omega)
+  have l1 : (wr a (off + W) fi).length = a.length :=
+    wr_length _ _ _ (by rw [li]; rw [hSz] at hE hpos; split at hE <;> omega)
+  have w2 := @wrRange_some_ok "set_entry/r_offset" (wr a (off + W) fi) (off + 0) fo (by rw [l1, lo]; rw [hSz] at hE; split at hE <;> omega)
+  have e2 : wr (wr a (off + W) fi) (off + 0) fo = wr a off (fo ++ fi) := by
+    rw [Nat.add_zero, wr_wr_comm a fo fi off (off + W) (by omega) (by rw [li]; rw [hSz] at hE; split at hE <;> omega)]
+    have := wr_wr_adjacent a fo fi off (by rw [lo, li]; rw [hSz] at hE; split at hE <;> omega)
+    rw [lo] at this; exact this
+  unfold setGeneric
+  simp only [hoff, hd, ok.offsetOff, ok.offsetW, ok.infoOff, ok.infoW, hW, hfi, hfo, w1, bind, Except.bind, w2, e2]
+  cases k with
+  | rel =>
+    have hna : ops.hasAddend = false := by rw [ok.hasAddend]; rfl
+    simp only [hasAddend, Bool.false_eq_true, if_false, List.append_nil] at hrec hSz
+    simp only [hna, Bool.false_eq_true, if_false, pure, Except.pure]
+    have hl : (wr a off (fo ++ fi)).length = a.length := wr_length _ _ _ (by simp [lo, li]; omega)
+    have hres : ({ b.getData with data := some (wr a off (fo ++ fi)) } : SecBuf).Resident :=
+      ⟨hr.notNobits, (fun h => by cases h),
+        Or.inr ⟨_, rfl, (by show b.getData.size.toNat ≤ b.getData.dataSize.toNat; rcases hr.buf with ⟨x, _, _⟩ | ⟨a', x, x1, x2⟩
+                            · rw [hd] at x; cases x
+                            · exact x1),
+          (by show b.getData.dataSize.toNat ≤ _; rw [hl]; exact hs2)⟩, hr.cap⟩
+    refine ⟨_, rfl, hres, g1, g2, g3, g4, ?_⟩
+    rw [C07.content_resident hres]
+    show (wr a off (fo ++ fi)).take b.getData.size.toNat = _
+    rw [g4, wr_take _ _ _ _ (by simp [lo, li]; omega) (by omega), ← hca, hrec]
+  | rela =>
+    have hya : ops.hasAddend = true := by rw [ok.hasAddend]; rfl
+    simp only [hasAddend, if_true] at hrec hSz
+    have l2 : (wr a off (fo ++ fi)).length = a.length := wr_length _ _ _ (by simp [lo, li]; omega)
+    have w3 := @wrRange_some_ok "set_entry/r_addend" (wr a off (fo ++ fi)) (off + 2 * W) fa (by rw [l2, la]; omega)
+    have e3 : wr (wr a off (fo ++ fi)) (off + 2 * W) fa = wr a off (fo ++ fi ++ fa) := by
+      have := wr_wr_adjacent a (fo ++ fi) fa off (by simp [lo, li, la]; omega)
+      simp only [List.length_append, lo, li] at this
+      rw [show off + (W + W) = off + 2 * W by omega] at this
+      exact this
+    simp only [hya, if_true, ok.addendOff hya, ok.addendW hya, hW, hfa, w3, e3, pure, Except.pure]
+    have hl : (wr a off (fo ++ fi ++ fa)).length = a.length := wr_length _ _ _ (by simp [lo, li, la]; omega)
+    have hres : ({ b.getData with data := some (wr a off (fo ++ fi ++ fa)) } : SecBuf).Resident :=
+      ⟨hr.notNobits, (fun h => by cases h),
+        Or.inr ⟨_, rfl, (by show b.getData.size.toNat ≤ b.getData.dataSize.toNat; rcases hr.buf with ⟨x, _, _⟩ | ⟨a', x, x1, x2⟩
+                            · rw [hd] at x; cases x
+                            · exact x1),
+          (by show b.getData.dataSize.toNat ≤ _; rw [hl]; exact hs2)⟩, hr.cap⟩
+    refine ⟨_, rfl, hres, g1, g2, g3, g4, ?_⟩
+    rw [C07.content_resident hres]
+    show (wr a off (fo ++ fi ++ fa)).take b.getData.size.toNat = _
+    rw [g4, wr_take _ _ _ _ (by simp [lo, li, la]; omega) (by omega), ← hca, hrec]
+
+theorem setEntry_dispatch (c : Cls) (k : RelKind) (enc : Enc) (b : SecBuf) (hc : b.cls = c)
+    (ht : b.stype = shtOf k) (idx : BitVec 64) (hidx : idx.toNat < b.size.toNat / b.entSize.toNat) (e : Entry) :
+    setEntry enc b idx e = (do let b' ← setGeneric (opsOf c k) enc b idx e; pure (b', true)) := by
+  have hn : reloc_set_idx_oob idx (entriesNumV b) = false := by
+    rw [set_idx_oob, entriesNumV_toNat]; simp; omega
+  unfold setEntry
+  simp only [entriesNum_ok, bind, Except.bind, hn, Bool.false_eq_true, if_false, hc, ht]
+  cases c <;> cases k <;>
+    simp [is32_c32.2.1, is32_c64.2.1, shtOf, opsOf, reloc_set_is_rel32, reloc_set_is_rela32, reloc_set_is_rel64,
+      reloc_set_is_rela64, sht_rel_ne_rela, bind, Except.bind]
+
+/-- an index at or beyond the entry count is refused and nothing changes -/
+theorem set_invalid (enc : Enc) (b : SecBuf) (idx : BitVec 64) (e : Entry)
+    (hidx : b.size.toNat / b.entSize.toNat ≤ idx.toNat) : setEntry enc b idx e = .ok (b, false) := by
+  have hn : reloc_set_idx_oob idx (entriesNumV b) = true := by
+    rw [set_idx_oob, entriesNumV_toNat]; simpa using hidx
+  unfold setEntry
+  simp [entriesNum_ok, bind, Except.bind, hn, pure, Except.pure]
+
+/-- **set_entry_frame** : `set_entry(i, …)` on a relocation table succeeds, returns true, and the
+    section afterwards is the old byte string with exactly the record of entry `i` overwritten by the
+    gABI encoding of the new values (`wr` changes the bytes `[i*E, i*E + sizeof(T))` and nothing else,
+    see `set_entry_bytes`) -/
+theorem set_entry_frame (c : Cls) (k : RelKind) (enc : Enc) (b : SecBuf) (hR : RelocSec c k b)
+    (idx : BitVec 64) (hidx : idx.toNat < b.size.toNat / b.entSize.toNat) (e : Entry) :
+    ∃ b', setEntry enc b idx e = .ok (b', true) ∧ RelocSec c k b' ∧ b'.size = b.size ∧ b'.entSize = b.entSize ∧
+      b'.content = wr b.content (idx.toNat * b.entSize.toNat) (encodeEntry ⟨c, enc⟩ k e.toSpec) := by
+  have ok := opsOk c k
+  obtain ⟨b', h, r, h1, h2, h3, h4, h5⟩ := setGeneric_spec ok enc b hR.inv hR.cls idx
+    (by rw [ok.size]; exact hR.entSize) hidx e
+  refine ⟨b', ?_, ⟨Or.inl r, by rw [h1]; exact hR.cls, by rw [h2]; exact hR.stype, by rw [h3]; exact hR.entSize⟩,
+    h4, h3, h5⟩
+  rw [setEntry_dispatch c k enc b hR.cls hR.stype idx hidx e]
+  simp [h, bind, Except.bind, pure, Except.pure]
+
+/-- the frame, byte by byte: positions outside the record of entry `i` keep their value -/
+theorem set_entry_bytes (c : Cls) (k : RelKind) (enc : Enc) (b : SecBuf) (hR : RelocSec c k b)
+    (idx : BitVec 64) (hidx : idx.toNat < b.size.toNat / b.entSize.toNat) (e : Entry) :
+    ∃ b', setEntry enc b idx e = .ok (b', true) ∧ b'.content.length = b.content.length ∧
+      ∀ p, (p < idx.toNat * b.entSize.toNat ∨ idx.toNat * b.entSize.toNat + Spec.entSize c k ≤ p) →
+        b'.content[p]? = b.content[p]? := by
+  obtain ⟨b', h, _, _, _, hv⟩ := set_entry_frame c k enc b hR idx hidx e
+  obtain ⟨hib, _⟩ := index_bound hidx
+  have hlen := C07.content_length hR.inv
+  have hE := hR.entSize
+  have hrl : (encodeEntry ⟨c, enc⟩ k e.toSpec).length = Spec.entSize c k := encodeEntry_length ..
+  have hfit : idx.toNat * b.entSize.toNat + (encodeEntry ⟨c, enc⟩ k e.toSpec).length ≤ b.content.length := by
+    rw [hrl, hlen]; omega
+  refine ⟨b', h, by rw [hv, wr_length _ _ _ hfit], ?_⟩
+  intro p hp
+  rw [hv, wr_getElem? _ _ _ _ hfit, hrl]
+  ite_omega
+
+/-- **set_entry then get_entry** : entry `i` reads back as the new values (in the ranges of the packing),
+    every other entry reads back as the same record bytes as before -/
+theorem set_entry_get (c : Cls) (k : RelKind) (enc : Enc) (b : SecBuf) (hR : RelocSec c k b)
+    (idx : BitVec 64) (hidx : idx.toNat < b.size.toNat / b.entSize.toNat) (e : Entry) (hfit : Fits c e.toSpec) :
+    ∃ b', setEntry enc b idx e = .ok (b', true) ∧
+      getEntry enc b' idx = .ok (b'.getData, some (normEntry c k e)) ∧
+      ∀ j : BitVec 64, j.toNat < b.size.toNat / b.entSize.toNat → j.toNat ≠ idx.toNat →
+        ∃ x, getEntry enc b' j = .ok (b'.getData, some x) ∧ getEntry enc b j = .ok (b.getData, some x) := by
+  obtain ⟨b', h, hR', hs, he, hv⟩ := set_entry_frame c k enc b hR idx hidx e
+  obtain ⟨hib, hEpos⟩ := index_bound hidx
+  have hlen := C07.content_length hR.inv
+  have hE := hR.entSize
+  have hrl : (encodeEntry ⟨c, enc⟩ k e.toSpec).length = Spec.entSize c k := encodeEntry_length ..
+  have hfitw : idx.toNat * b.entSize.toNat + (encodeEntry ⟨c, enc⟩ k e.toSpec).length ≤ b.content.length := by
+    rw [hrl, hlen]; omega
+  refine ⟨b', h, ?_, ?_⟩
+  · obtain ⟨e', h1, h2⟩ := get_refines c k enc b' hR' idx (by rw [hs, he]; exact hidx)
+    rw [h1]
+    have : e' = normEntry c k e := by
+      apply Entry.toSpec_inj
+      rw [h2, normEntry_toSpec, he, hv, ← hrl, slice_wr_same _ _ _ hfitw]
+      exact spec_roundtrip ⟨c, enc⟩ k _ hfit
+    rw [this]
+  · intro j hj hne
+    obtain ⟨x, h1, h2⟩ := get_refines c k enc b' hR' j (by rw [hs, he]; exact hj)
+    obtain ⟨y, h3, h4⟩ := get_refines c k enc b hR j hj
+    have : x = y := by
+      apply Entry.toSpec_inj
+      rw [h2, h4, he, hv]
+      congr 1
+      apply slice_wr_other _ _ _ _ _ hfitw
+      rw [hrl]
+      rcases Nat.lt_or_gt_of_ne hne with hlt | hgt
+      · left
+        have : (j.toNat + 1) * b.entSize.toNat ≤ idx.toNat * b.entSize.toNat := Nat.mul_le_mul_right _ hlt
+        rw [Nat.succ_mul] at this; omega
+      · right
+        have : (idx.toNat + 1) * b.entSize.toNat ≤ j.toNat * b.entSize.toNat := Nat.mul_le_mul_right _ hgt
+        rw [Nat.succ_mul] at this; omega
+    exact ⟨x, h1, by rw [this]; exact h3⟩
+
 end C11
 end ElfioVerif
